@@ -108,21 +108,21 @@ fn classify_miri(o: &ToolOut, tag: &str) -> SanVerdict {
         return SanVerdict::Inconclusive(format!("cannot start cargo miri: {}", e));
     }
     let viol_line = o.stdout.lines().find(|l| l.starts_with(&format!("{}-VIOLATION", tag))).map(|s| s.to_string());
+    let failing_seed = o.stderr.lines().find(|l| l.contains("FAILING SEED")).unwrap_or("").trim().to_string();
     if let Some(l) = viol_line {
-        return SanVerdict::Report { kind: "workload-monitor".into(), report: tail(&o.stderr, 30), workload_line: Some(l) };
+        return SanVerdict::Report { kind: "workload-monitor".into(), report: failing_seed, workload_line: Some(l) };
     }
     let e = &o.stderr;
     for (needle, kind) in [
         ("Data race detected", "data-race"),
-        ("deadlock", "deadlock"),
+        ("error: deadlock", "deadlock"),
         ("Undefined Behavior", "undefined-behavior"),
-        ("memory leaked", "memory-leak"),
     ] {
         if e.contains(needle) {
             // cut the report out: from the first "error:" line
             let start = e.find("error:").unwrap_or(0);
             let rep: String = e[start..].chars().take(6000).collect();
-            return SanVerdict::Report { kind: kind.into(), report: rep, workload_line: None };
+            return SanVerdict::Report { kind: kind.into(), report: format!("{} {}", failing_seed, rep), workload_line: None };
         }
     }
     if o.timed_out {
@@ -149,8 +149,8 @@ pub fn miri_run(root: &Path, bin: &str, tag: &str, args: &[String], seeds: u32, 
     let mut c = base_cmd(root);
     c.env("CARGO_TARGET_DIR", root.join("target").join("miri"));
     let flags = match one_seed {
-        Some(s) => format!("-Zmiri-seed={} -Zmiri-disable-isolation", s),
-        None => format!("-Zmiri-many-seeds=0..{} -Zmiri-disable-isolation", seeds),
+        Some(s) => format!("-Zmiri-seed={} -Zmiri-disable-isolation -Zmiri-ignore-leaks", s),
+        None => format!("-Zmiri-many-seeds=0..{} -Zmiri-disable-isolation -Zmiri-ignore-leaks", seeds),
     };
     c.env("MIRIFLAGS", flags);
     c.args(["+nightly", "miri", "run", "--offline", "--bin", bin, "--"]).args(args);
@@ -208,6 +208,16 @@ pub fn tsan_run(bin: &Path, tag: &str, args: &[String], timeout_s: u64) -> SanVe
         return SanVerdict::Clean { stdout: o.stdout, wall_s: o.wall_s };
     }
     SanVerdict::Inconclusive(format!("ThreadSanitizer run failed without a report (exit {:?}): {}", o.exit, tail(&o.stderr, 8).replace('\n', " | ")))
+}
+
+/// Several ThreadSanitizer processes side by side (each is mostly single-threaded).
+pub fn tsan_run_many(bin: &Path, tag: &str, args_list: &[Vec<String>], timeout_s: u64) -> Vec<SanVerdict> {
+    std::thread::scope(|sc| {
+        let hs: Vec<_> = args_list.iter().map(|a| sc.spawn(move || tsan_run(bin, tag, a, timeout_s))).collect();
+        hs.into_iter()
+            .map(|h| h.join().unwrap_or_else(|_| SanVerdict::Inconclusive("runner thread died".into())))
+            .collect()
+    })
 }
 
 /// `key=value` fields of the workload's summary lines (`<TAG>-SUMMARY k=v k=v …`).
